@@ -118,7 +118,11 @@ PartOK(f, part, bits) ==
     [] OTHER -> TRUE
 TDebug == /\ Ev.ev = "debug" /\ ~Ev.panic
           /\ Len(Ev.parts) = Len(decl.fields)
-          /\ Ev.lines = ComposeLines(decl.name, [k \in 1..Len(decl.fields) |-> decl.fields[k].name], Ev.parts, Ev.alt)
+          (* a raw identifier (r#type) may be rendered as written (stringify!) or without the r# (as derive(Debug) does):
+             the property says "by name" and both are the field's name *)
+          /\ \/ Ev.lines = ComposeLines(decl.name, [k \in 1..Len(decl.fields) |-> decl.fields[k].name], Ev.parts, Ev.alt)
+             \/ Ev.lines = ComposeLines(decl.name, [k \in 1..Len(decl.fields) |-> Ev.plain[k]], Ev.parts, Ev.alt)
+          /\ Len(Ev.plain) = Len(decl.fields)
           /\ \A k \in 1..Len(decl.fields) :
                 (Len(Ev.parts[k]) = 1 \/ Ev.alt) /\
                 (~Ev.alt => PartOK(decl.fields[k], Ev.parts[k], Read(obj[Ev.slot], Pos(decl.fields[k], 0))))
